@@ -48,6 +48,10 @@ func (r *Router) route(s Sender, p stanza.Packet) {
 		switch tt := s.(type) {
 		case *Client:
 			lastAcked := a.H
+			// More than was ever sent acknowledges everything; the count must not turn negative as an int.
+			if maxInt := ^uint(0) >> 1; lastAcked > maxInt {
+				lastAcked = maxInt
+			}
 			SendMissingStz(int(lastAcked), s, tt.Session.SMState.UnAckQueue)
 		case *Component:
 		// TODO
